@@ -715,7 +715,10 @@ def eval_mbox(case):
             return [], "ambiguous:raises"                # not a valid mboxo file (header-less fragment after the split): not judged
         return [("raises", "read_mbox_format_mail raised " + _exc(e))], "raises"
     if amb:
-        if len(res) not in (len(specs), len(ref)):
+        # Which of the unescaped "From ..." body lines are separators is a matter of the reader's separator rule (mailbox.mbox: every
+        # line starting with "From "; stricter readers also want the date part): any count between the written one and mailbox.mbox's
+        # is a defensible reading of such a file.
+        if not (min(len(specs), len(ref)) <= len(res) <= max(len(specs), len(ref))):
             return [("mbox_count", "unescaped From line in a body: %d messages written, mailbox.mbox reads %d, library yields %d" % (
                 len(specs), len(ref), len(res)))], "ambiguous:count%d" % len(res)
         return [], "ambiguous:count%d/%d/%d" % (len(specs), len(ref), len(res))
@@ -1015,8 +1018,8 @@ def run(ctx):
         "as messages (a re-serialised but equivalent embedded message, e.g. 8bit turned into quoted-printable, is accepted); the inline image "
         "of multipart/related may or may not be listed as an attachment",
         "mbox bodies: both the original text and the mboxo-escaped ('>From ') text as mailbox.mbox reads it back are accepted",
-        "mbox with an *unescaped* From line in a body is not a valid mboxo file: only the message count is judged (the written count or "
-        "mailbox.mbox's count are both accepted) and an exception there is not judged",
+        "mbox with an *unescaped* From line in a body is not a valid mboxo file: only the message count is judged (any count from the written "
+        "one to mailbox.mbox's is accepted) and an exception there is not judged",
         "att_extract is evaluated only for attachments whose type and bytes came back right; 'supported' = routable by file name and/or "
         "listed MIME type; name-only / mime-only routability is reported under separate clauses",
         ".msg: fixtures only; basic_email.msg and basic_email.eml are different messages (different Message-ID), so basic_email.msg is "
